@@ -344,6 +344,56 @@ def run_cvt_overflow(case, drv):
     return None
 
 
+def gen_extreme(rng):
+    """known findings D18 (ProximityArchive) and D31: magnitudes within a few orders of the largest finite float"""
+    gen_extreme.n = getattr(gen_extreme, "n", -1) + 1       # every kind on every run
+    which = ["prox-far", "grid-range", "grid-width"][gen_extreme.n % 3]
+    return {"kind": "extreme", "which": which, "dtype": "f64" if which == "prox-far" else rng.choice(["f64", "f32"]),
+            "ops": [rng.random() for _ in range(3)]}
+
+
+def run_extreme(case, drv):
+    from ribs.archives import GridArchive, ProximityArchive
+    dt, which = case["dtype"], case["which"]
+    top = 1e307 if dt == "f64" else 1e37
+    with np.errstate(all="ignore"):
+        if which == "prox-far":
+            a = ProximityArchive(solution_dim=1, measure_dim=2, k_neighbors=1, novelty_threshold=0.5, dtype=NP[dt])
+            a.add([[0.0], [1.0], [2.0], [3.0]], None, [[0.0, 0.0], [1.0, 1.0], [5.0, 5.0], [-3.0, 2.0]])
+            pts = np.array([[1e160 * (1 + t), 1e160] for t in case["ops"]], dtype=NP[dt])
+            idx = [int(i) for i in a.index_of(pts)]
+            if any(not 0 <= i < len(a) for i in idx):
+                return Failure("oracle", f"[C03] ProximityArchive.index_of of finite measures of magnitude 1e160 returned "
+                               f"{idx}: not an index of a stored entry (n={len(a)}; the k-D tree's squared distance "
+                               f"overflows)", key="D18-proximity-distance-overflow")
+            if any(i != 2 for i in idx):
+                return Failure("oracle", f"[C03] ProximityArchive.index_of: far points mapped to {idx}, nearest entry is 2")
+            return None
+        if which == "grid-range":
+            a = GridArchive(solution_dim=1, dims=[100], ranges=[(0.0, top)], dtype=NP[dt])
+            fracs = [0.5, 0.2] + [0.1 + 0.8 * t for t in case["ops"]]
+            pts = np.array([[top * f] for f in fracs], dtype=NP[dt])
+            idx = [int(i) for i in a.index_of(pts)]
+            want = [int(100 * f) for f in fracs]
+            if any(abs(i - w) > 1 for i, w in zip(idx, want)):
+                return Failure("oracle", f"[C03] GridArchive(dims=[100], ranges=[(0, {top:g})], {dt}).index_of maps interior "
+                               f"points at fractions {[round(f, 3) for f in fracs]} of the range to cells {idx}, documented "
+                               f"cells {want} (dims * (measures - lower) overflows)",
+                               key="D31-grid-range-near-float-max")
+            return None
+        a = GridArchive(solution_dim=1, dims=[100], ranges=[(-top * 10, top * 10)], dtype=NP[dt])
+        try:
+            idx = [int(i) for i in a.index_of(np.array([[0.0], [top]], dtype=NP[dt]))]
+        except ValueError as e:
+            return Failure("oracle", f"[C03] GridArchive(dims=[100], ranges=[({-top * 10:g}, {top * 10:g})], {dt}).index_of "
+                           f"raised {str(e)[:80]} on finite measures (upper - lower is not finite in the archive dtype)",
+                           key="D31-grid-range-near-float-max")
+        if any(abs(i - w) > 1 for i, w in zip(idx, [50, 55])):
+            return Failure("oracle", f"[C03] GridArchive with a range of width {20 * top:g}: cells {idx}, documented [50, 55]",
+                           key="D31-grid-range-near-float-max")
+        return None
+
+
 # ---------------------------------------------------------------------------- sliding boundaries
 
 
@@ -473,7 +523,7 @@ def run_prox(case, drv):
     return None
 
 
-RUNNERS = {"grid": run_grid, "ravel": run_ravel, "cvt": run_cvt, "cvt_overflow": run_cvt_overflow, "sb": run_sb,
+RUNNERS = {"grid": run_grid, "ravel": run_ravel, "cvt": run_cvt, "cvt_overflow": run_cvt_overflow, "extreme": run_extreme, "sb": run_sb,
            "prox": run_prox}
 
 
@@ -515,6 +565,7 @@ def run(ctx):
     ctx.explore("sb", gen_sb, run_case, ctx.n(100, 8000), nontrivial=nontrivial, time_budget=b)
     ctx.explore("prox", gen_prox, run_case, ctx.n(80, 6000), nontrivial=nontrivial, time_budget=b)
     ctx.explore("cvt-overflow", gen_cvt_overflow, run_case, ctx.n(4, 40), nontrivial=nontrivial, time_budget=b)
+    ctx.explore("extreme-magnitudes", gen_extreme, run_case, ctx.n(9, 60), nontrivial=nontrivial, time_budget=b)
     ctx.extra["points_checked"] = ctx.dist.copy()
 
 
